@@ -4,6 +4,7 @@ package config
 
 import (
 	"context"
+	"crypto/tls"
 	"errors"
 	"regexp"
 	"time"
@@ -13,6 +14,7 @@ import (
 	"github.com/cloudflare/pint/internal/discovery"
 	"github.com/cloudflare/pint/internal/parser"
 	"github.com/cloudflare/pint/internal/parser/utils"
+	"github.com/cloudflare/pint/internal/promapi"
 	promParser "github.com/prometheus/prometheus/promql/parser"
 )
 
@@ -64,7 +66,7 @@ func verifMap(tag, key string, n int, line int) *parser.YamlMap {
 	m := &parser.YamlMap{Key: &parser.YamlNode{Value: key, Pos: verifPos(line)}}
 	for i := 0; i < n; i++ {
 		m.Items = append(m.Items, &parser.YamlKeyValue{
-			Key:   verifNode(tag+"k"+verifItoa(i), line+1+i),
+			Key:   verifNode(tag+"k"+verifItoa(i), line+1+i, "team"), // "team": also a member of the key patterns' domain
 			Value: verifNode(tag+"v"+verifItoa(i), line+1+i, ""),
 		})
 	}
@@ -109,6 +111,18 @@ func verifMkEntry() discovery.Entry {
 	return e
 }
 
+// recording rule, no labels of its own, group labels that lack a non-empty value for the required key
+func verifGroupLabelsOnly(e discovery.Entry, key string, required bool) bool {
+	if !required || e.Rule.RecordingRule == nil || e.Rule.RecordingRule.Labels != nil || e.Group == nil || e.Group.Labels == nil {
+		return false
+	}
+	missing := true
+	for _, kv := range e.Group.Labels.Items {
+		missing = verifAnd(missing, verifOr(kv.Key.Value != key, kv.Value.Value == ""))
+	}
+	return missing
+}
+
 // ---- symbolic configuration values ----
 
 func verifPattern(tag string, cands ...string) string { return verifAtomNS(tag, 1, 2, cands...) }
@@ -130,7 +144,7 @@ func verifMkRule(i string) Rule {
 		}
 		r.Aggregate = []AggregateSettings{a}
 	case 1, 2: // annotation / label "<key>" { token value values required }
-		s := AnnotationSettings{Key: verifPattern("key"+i, ""), Token: verifPattern("tok"+i, ""), Value: verifPattern("val"+i, ""),
+		s := AnnotationSettings{Key: verifPattern("key"+i, "", "team"), Token: verifPattern("tok"+i, ""), Value: verifPattern("val"+i, ""),
 			Severity: verifSeverity("sev" + i), Required: verifBool("required" + i), Comment: verifAtom("comment"+i, 1, "")}
 		if verifBool("values" + i) {
 			s.Values = []string{"foo", "bar"}
@@ -187,6 +201,11 @@ func VerifHarness_ParseRule() {
 		// NewRangeQueryCheck(nil, 0, ...) whose String() dereferences the nil Prometheus group
 		verifSig("C18-rangequery-empty-max", rule.RangeQuery.Max == "")
 	}
+	for _, lab := range rule.Label {
+		// genuine defect found by this harness (notes/C18.md): label "<key>" { required = true } on a recording rule whose
+		// labels all come from its group: LabelCheck reads entry.Rule.RecordingRule.Labels, which is nil
+		verifSig("C18-label-required-group-labels-only", verifGroupLabelsOnly(e, lab.Key, lab.Required))
+	}
 	err := rule.validate()
 	if err != nil {
 		verifReach("rejected")
@@ -219,7 +238,9 @@ func VerifHarness_ParseRule() {
 // A1: anchoring a valid pattern keeps it valid (the code validates p and compiles "^"+p+"$").
 func verifPlainPattern(tag string) string {
 	p := verifPattern(tag, "")
-	verifAssume(verifOr(!verifPred("reok", p), verifPred("reok", "^"+p+"$")))
+	if verifParam("a1") == 1 { // a1=0 shows what the assumption is needed for (notes/C18.md)
+		verifAssume(verifOr(!verifPred("reok", p), verifPred("reok", "^"+p+"$")))
+	}
 	return p
 }
 
@@ -307,6 +328,12 @@ func VerifHarness_PatternLists() {
 		// first statement of FilePath.Discover (the directory walk itself is environment)
 		count([]*regexp.Regexp{strictRegex(fp.Match)})
 	}
+	// prometheus "<name>" { include / exclude }: validated by PrometheusConfig.validate, compiled by newFailoverGroup
+	pc := PrometheusConfig{Name: "prom", URI: "http://localhost:9090", Include: mk("pinc"), Exclude: mk("pexc")}
+	if pc.validate() == nil {
+		verifReach("prometheus-accepted")
+		_ = newFailoverGroup(pc)
+	}
 	verifReach("end")
 	verifAssert(matched >= 0, "validated pattern lists compile without a crash")
 }
@@ -319,3 +346,12 @@ func verifFilePathPatternsOK(fp FilePath) bool {
 }
 
 func verifStub_config_PrometheusTemplate_validate(pt PrometheusTemplate) error { return nil }
+
+// the API client objects themselves are environment for the include/exclude patterns
+func verifStub_promapi_NewPrometheus(name, uri, publicURI string, headers map[string]string, timeout time.Duration, concurrency, rl int, tlsConf *tls.Config) *promapi.Prometheus {
+	return nil
+}
+
+func verifStub_promapi_NewFailoverGroup(name, uri string, servers []*promapi.Prometheus, strictErrors bool, uptimeMetric string, include, exclude []*regexp.Regexp, tags []string) *promapi.FailoverGroup {
+	return nil
+}
